@@ -43,6 +43,9 @@ class Contract:
         self.exc_ensures = list(kw.pop("exc_ensures", ()))
         # definitional updates of ghost (specification-only) state: assumed at call sites, not checked on the body
         self.ghost_ensures = list(kw.pop("ghost_ensures", ()))
+        # preconditions over ghost state that are CHECKED at call sites (unlike ghost-mentioning `requires`, which
+        # reset the ghost trace)
+        self.ghost_requires = list(kw.pop("ghost_requires", ()))
         if kw:
             raise TypeError(f"unknown contract keys {list(kw)} for {key}")
 
